@@ -175,6 +175,8 @@ struct Sh {
     /// thread mode with a clock-reading cost: how far the clock the code under test reads is ahead of the virtual
     /// clock the harness measures with (nanoseconds); "gave up early" rules allow for it
     clock_ahead_ns: std::sync::atomic::AtomicU64,
+    /// a crowd of async flushes waiting on one batch (more than a thousand: any number of concurrent flushers)
+    storm: Mutex<Vec<AsyncOp>>,
 }
 
 impl Sh {
@@ -584,6 +586,17 @@ fn check_snapshot(sh: &Sh, what: &str) {
 fn actor_step(sh: &ShRef, a: usize) {
     let sender = sh.sender.lock().unwrap().clone();
     let Some(sender) = sender else { return };
+    if !sh.storm.lock().unwrap().is_empty() && chance(sh, 1, 3) {
+        let waiting = std::mem::take(&mut *sh.storm.lock().unwrap());
+        let mut still = Vec::new();
+        for op in waiting {
+            if let Some(op) = poll_async(sh, a, op) {
+                still.push(op);
+            }
+        }
+        w(sh, |w| CS_WATCH.with(|c| c.set(None)));
+        *sh.storm.lock().unwrap() = still;
+    }
     // take the pending async op (if any) out of the actor so no lock is held while it runs
     let cur = {
         let mut actors = sh.actors.lock().unwrap();
@@ -793,8 +806,16 @@ fn start_op_kind(sh: &ShRef, a: usize, sender: &Arc<Sender<Chan>>, kind: usize) 
                 return None;
             }
             let accepted = w(sh, |w| {
-                let acc = CS_RESULT.with(|c| c.get()) == Some(true);
+                let res = CS_RESULT.with(|c| c.get());
+                let acc = res == Some(true);
                 w.log(format!("actor{a} send({item}) accepted={acc}"));
+                // the model learns of a send at the channel's critical section; a send that returns without ever
+                // getting there (on a channel the model knows to be open) has dropped its item on the floor
+                if res.is_none() && w.open && !w.torn_down && !w.aborted {
+                    let d = format!("send({item}) returned without reaching the channel: the item is neither queued nor counted as truncated");
+                    w.out.violate("C06", "send_never_reached_the_channel", d.clone());
+                    w.out.violate("C09", "send_never_reached_the_channel", d);
+                }
                 acc
             });
             record_send_return(sh, item, accepted);
@@ -874,6 +895,32 @@ fn start_op_kind(sh: &ShRef, a: usize, sender: &Arc<Sender<Chan>>, kind: usize) 
             let _ = panic::catch_unwind(AssertUnwindSafe(|| sender.when_flushed(cb)));
             let _ = crate::core::take_last_panic();
             check_snapshot(sh, "when_flushed");
+            None
+        }
+        4 if sh.inline && sh.storm.lock().unwrap().is_empty() && chance(sh, 1, 120) => {
+            // a crowd of flushers on whatever is pending right now
+            let n = 1030 + choose(sh, 200);
+            w(sh, |w| {
+                w.out.probe("flush_storm");
+                w.log(format!("actor{a} starts {n} async flushes at once"));
+            });
+            let mut waiting = Vec::new();
+            for _ in 0..n {
+                let id = new_cb(sh, "aflush");
+                w(sh, |w| {
+                    CS_WATCH.with(|c| c.set(Some(id)));
+                    let seq = w.next_seq();
+                    w.events.push(Ev::FlushRequest { seq, id });
+                    w.cbs.remove(&id);
+                });
+                let s = sender.clone();
+                let fut: BoxFut<bool> = Box::pin(async move { emit_batcher::tokio::flush(&*s, Duration::from_secs(3600)).await });
+                if let Some(op) = poll_async(sh, a, AsyncOp::Flush { id, fut }) {
+                    waiting.push(op);
+                }
+            }
+            check_snapshot(sh, "flush storm");
+            *sh.storm.lock().unwrap() = waiting;
             None
         }
         4 => {
@@ -1439,6 +1486,17 @@ impl Engine for ChanInline {
             });
         }
 
+        // prelude: this thread has used another channel before, one that was already closed (an application has many
+        // channels; whatever a channel operation leaves behind in the thread must not leak into the next channel).
+        // Done in every run, so that a run does not depend on what earlier runs on this OS thread did
+        {
+            let (other, other_rx): (Sender<Chan>, Receiver<Chan>) = emit_batcher::bounded(1);
+            drop(other_rx);
+            other.send(4_000_000);
+            let _ = other.try_send(4_000_001);
+            other.when_flushed(|| {});
+            drop(other);
+        }
         let (sender, receiver): (Sender<Chan>, Receiver<Chan>) = emit_batcher::bounded(cap);
         let sh: ShRef = Arc::new(Sh {
             world: Mutex::new({
@@ -1453,6 +1511,7 @@ impl Engine for ChanInline {
             sender: Mutex::new(Some(Arc::new(sender))),
             actors: Mutex::new(actors),
             clock_ahead_ns: std::sync::atomic::AtomicU64::new(0),
+            storm: Mutex::new(Vec::new()),
         });
         w(&sh, |w| {
             w.log(format!(
@@ -1608,6 +1667,9 @@ impl Engine for ChanInline {
                     w(&sh, |w| {
                         let now = w.now;
                         if let Some(d) = w.deadlines.iter().find(|d| **d > now).copied() {
+                            // timers within a few microseconds of each other fire together (a crowd of waiters started
+                            // in one go has deadlines a clock reading apart)
+                            let d = w.deadlines.iter().filter(|x| **x >= d && **x <= d + Duration::from_micros(10)).max().copied().unwrap_or(d);
                             w.now = d;
                             w.deadlines.retain(|x| *x > d);
                             w.log(format!("clock advances to {d:?}"));
@@ -1635,6 +1697,9 @@ impl Engine for ChanInline {
                         }
                         drop(op);
                     }
+                    // (the crowd of flushers, if any, is cancelled with them: its futures hold the sender too)
+                    let crowd = std::mem::take(&mut *sh.storm.lock().unwrap());
+                    drop(crowd);
                     if !actor_work.is_empty() {
                         w(&sh, |w| w.out.fault("sender_dropped_early"));
                     }
@@ -1675,6 +1740,8 @@ impl Engine for ChanInline {
             for c in curs {
                 let _ = panic::catch_unwind(AssertUnwindSafe(move || drop(c)));
             }
+            let crowd = std::mem::take(&mut *sh.storm.lock().unwrap());
+            let _ = panic::catch_unwind(AssertUnwindSafe(move || drop(crowd)));
         }
         let s = sh.sender.lock().unwrap().take();
         let _ = panic::catch_unwind(AssertUnwindSafe(move || drop(s)));
